@@ -385,11 +385,10 @@ func (ms *Modules) Process() []error {
 		ToEntry(m).FixChoice()
 	}
 
-	// Go through any modules that have remaining augments and collect
+	// Go through any modules that have remaining augments and record
 	// the errors.
 	for _, m := range mods {
 		ToEntry(m).Augment(true)
-		errs = append(errs, ToEntry(m).GetErrors()...)
 	}
 
 	// The deviation statement is only valid under a module or submodule,
@@ -406,6 +405,16 @@ func (ms *Modules) Process() []error {
 				dvP[e.Name] = true
 			}
 		}
+	}
+
+	// Applying the augments and deviations may have recorded errors on any
+	// entry (e.g., two augments adding the same node), so collect the
+	// errors of all the entry trees again.
+	for _, m := range ms.Modules {
+		errs = append(errs, ToEntry(m).GetErrors()...)
+	}
+	for _, m := range ms.SubModules {
+		errs = append(errs, ToEntry(m).GetErrors()...)
 	}
 
 	return errorSort(errs)
